@@ -72,6 +72,15 @@ class C03(Prop):
                     if k == "getbulk" and rng.random() < 0.7:
                         op["max_rep"] = rng.choice([1, 2, 3, 10, 127, 128, 255, 256, 65535, 2**31 - 1, 2**31 - 1, 2**31, 2**32 - 1, 2**32 + 5, 2**40, 2**62])
                 mine.append(op)
+                if op["op"] == "walk" and rng.random() < 0.12:
+                    # the agent answers with a name whose sub-identifiers are written non-minimally (leading
+                    # 0x80) or left unterminated: whatever the walk makes of it, what it sends next is well-formed
+                    base_arcs = ber.parse_oid_text(op["oid"])
+                    nm = base_arcs + (rng.choice([1, 5, 200]), rng.choice([0, 3]))
+                    head = ber.oid_content(base_arcs)
+                    tail = rng.choice([b"\x80" + ber.arc_bytes(nm[-2]) + ber.arc_bytes(nm[-1]), ber.arc_bytes(nm[-2]) + b"\x80\x80" + ber.arc_bytes(nm[-1]), ber.arc_bytes(nm[-2]) + ber.arc_bytes(nm[-1]) + b"\x85"])
+                    scripts["%d:1" % opid] = {"replies": [{"k": "custom", "pdu": "response", "unpredictable": True, "varbinds": [[gen.oid_text(nm), ["int", 1], {"name_hex": (head + tail).hex()}]] * (2 if k == "getbulk" else 1)}]}
+                    continue
                 # history-making faults on the first request of the op
                 r = rng.random()
                 key = "%d:1" % opid
@@ -114,7 +123,13 @@ class C03(Prop):
             if op["op"] == "walk" and isinstance(res.get("ok"), dict):
                 yielded = [ber.parse_oid_text(k) for k, _ in res["ok"]["items"]]
             prev_follow = None
-            for n, ex in enumerate(exs):
+            from .v3common import preliminary_count
+
+            pre = preliminary_count(run, s, res, tr.deferred) if ver == 3 and tr is not None else 0
+            if pre:
+                run.sim.count("probe.discovery-inside-operation")
+            for n0, ex in enumerate(exs):
+                n = n0 - pre  # negative: the session's own discovery / time sync before the operation's request
                 run.sim.count("probe.tx-checked")
                 if abnormal_before:
                     pass
@@ -145,7 +160,7 @@ class C03(Prop):
                                 out.append(V("C03.wrong-v3-" + f, "%s on the wire is %r, session state says %r (op %s)" % (f, got[f], exp[f], op["op"]), field=f))
                         if dec["m"]["sec_model"] != 3:
                             out.append(V("C03.wrong-security-model", "securityModel %d" % dec["m"]["sec_model"]))
-                        tr.observe(run, s, res, n, ex)
+                        tr.observe(run, s, res, n0, ex)
                 rid = pdu["request_id"]
                 if not (0 <= rid < 2**31):
                     out.append(V("C03.request-id-range", "request-id %d" % rid, op=op["op"]))
@@ -153,7 +168,9 @@ class C03(Prop):
                     out.append(V("C03.msg-id-range", "msgID %d" % dec["msg_id"], op=op["op"]))
                 # PDU type and OIDs
                 want_type, want_oids = None, None
-                if op["op"] == "get":
+                if n < 0:
+                    want_type, want_oids = "get", []
+                elif op["op"] == "get":
                     want_type, want_oids = "get", [ber.parse_oid_text(op["oid"])]
                 elif op["op"] == "get_many":
                     want_type, want_oids = "get", [ber.parse_oid_text(o) for o in op["oids"]]
